@@ -170,10 +170,15 @@ class St(object):
             if k[:n] == src and len(k) > n:
                 self.mem[dst + k[n:]] = v
 
-    def havoc(self, loc):
+    def havoc(self, loc, sure=False):
+        """Unknown code may have written the object at loc.  Fields that were never
+        assigned stay possibly-unassigned (a callee we did not look into may or may
+        not assign them); with sure=True the object itself counts as written."""
         for k in [k for k in self.mem if k[:len(loc)] == loc]:
-            self.mem[k] = TOP
-        self.mem[loc] = TOP
+            v = self.mem[k]
+            self.mem[k] = MAYBE_UNINIT if (v is UNINIT or v is MAYBE_UNINIT) and not (sure and k == loc) else TOP
+        if loc not in self.mem or sure:
+            self.mem[loc] = TOP
         self.kill_rel(loc)
 
 
@@ -204,9 +209,13 @@ class Observer(object):
     def overflow(self, ai, e, val, it, st):
         pass
 
+    def returned(self, ai, site, fkey, val, st):
+        pass
+
 
 class AI(object):
-    def __init__(self, graph, observer=None, partition=None, max_parts=48, max_depth=12, uninit_locals=True):
+    def __init__(self, graph, observer=None, partition=None, max_parts=48, max_depth=12, uninit_locals=True,
+                 inline=None, ptr_partition=True):
         self.G = graph
         self.obs = observer or Observer()
         self.partition = partition or (lambda loc, v: None)
@@ -220,6 +229,8 @@ class AI(object):
         self.stats = dict(steps=0, calls=0, widenings=0)
         self.stack = []
         self.extern_model = {}
+        self.inline = inline or (lambda fkey: True)
+        self.ptr_partition = ptr_partition
 
     # ------------------------------------------------------------------ helpers
     def cfg(self, f):
@@ -260,7 +271,7 @@ class AI(object):
     def pkey(self, st):
         key = []
         for loc, v in st.mem.items():
-            if isinstance(v, Ptr) and v.null in ('N', 'NN') and len(loc) == 1:
+            if self.ptr_partition and isinstance(v, Ptr) and v.null in ('N', 'NN') and len(loc) == 1:
                 key.append((loc, v.null))
             else:
                 t = self.partition(loc, v)
@@ -403,6 +414,8 @@ class AI(object):
                 sts = self.ctor_init(a, st, u, f)
             else:
                 sts = [s for (_, s) in self.eval(a, st, u)]
+            for s in sts:
+                self._drop_temps(s)
             return [(m, s.copy() if i else s) for s in sts for i, (m, _) in enumerate(n.succs)]
         if k == 'cond':
             if n.info == 'range-for':
@@ -449,6 +462,11 @@ class AI(object):
                         outs.append((m, s.copy()))
             return outs
         return [(m, st) for (m, _) in n.succs]
+
+    def _drop_temps(self, s):
+        dead = [k for k in s.mem if k[0] == 'tmp']
+        for k in dead:
+            del s.mem[k]
 
     def _vkey(self, v):
         if isinstance(v, Ptr):
@@ -1492,19 +1510,43 @@ class AI(object):
         if k == 'CXXOperatorCallExpr' and c and c[0] == 'fn' and c[1].get('kind') == 'CXXMethodDecl':
             obj = args[0]
             args = args[1:]
-        if obj is not None and not self._const_member_call(e, c, u):
+        summary = None
+        if obj is not None and c and (c[0] == 'method' or c[0] == 'fn'):
+            d_ = u.by_id.get(c[3]) if c[0] == 'method' else c[1]
+            if d_ is not None and d_.get('_qn'):
+                tg_ = self.G.resolve_decl(d_)
+                if len(tg_) == 1:
+                    summary = self.this_writes(tg_[0])
+        if obj is not None and summary is not None:
+            # a method of /repo that is not inlined: only the members it (transitively) writes
+            nxt = []
+            for s in cur:
+                me = peel(kids(e)[0], explicit=False) if k == 'CXXMemberCallExpr' else None
+                locs = []
+                if me is not None and me.get('isArrow'):
+                    for (pv, s2) in self.eval(obj, s, u):
+                        locs.append((pv.target if isinstance(pv, Ptr) else None, s2))
+                else:
+                    locs = self.lval(obj, s, u)
+                for (l, s2) in locs:
+                    if l is not None:
+                        for fld in summary:
+                            s2.havoc(l + (fld,))
+                    nxt.append(s2)
+            cur = nxt
+        elif obj is not None and not self._const_member_call(e, c, u):
             nxt = []
             for s in cur:
                 me = peel(kids(e)[0], explicit=False) if k == 'CXXMemberCallExpr' else None
                 if me is not None and me.get('isArrow'):
                     for (pv, s2) in self.eval(obj, s, u):
                         if isinstance(pv, Ptr) and pv.target is not None:
-                            s2.havoc(pv.target)
+                            s2.havoc(pv.target, sure=True)
                         nxt.append(s2)
                 else:
                     for (l, s2) in self.lval(obj, s, u):
                         if l is not None:
-                            s2.havoc(l)
+                            s2.havoc(l, sure=True)
                         nxt.append(s2)
             cur = nxt
         for i, a in enumerate(args):
@@ -1524,6 +1566,46 @@ class AI(object):
             cur = nxt
         return [(self.top_of(dtype(e)), s) for s in cur]
 
+    def this_writes(self, fkey, _seen=None):
+        """Names of the data members of *this that fkey may write, transitively through
+        calls on this (EFFECT summary used when a method is not inlined)."""
+        if not hasattr(self, '_tw'):
+            self._tw = {}
+        if fkey in self._tw:
+            return self._tw[fkey]
+        _seen = _seen or set()
+        if fkey in _seen:
+            return set()
+        _seen = _seen | {fkey}
+        from .expr import written_lvalues
+        uu, ff = self.G.defs[fkey]
+        out = set()
+        for x in walk(ff):
+            if x.get('kind') in ('BinaryOperator', 'CompoundAssignOperator', 'UnaryOperator', 'CallExpr',
+                                 'CXXMemberCallExpr', 'CXXOperatorCallExpr', 'CXXConstructExpr'):
+                for lv in written_lvalues(x):
+                    y = peel(lv)
+                    # innermost member of this
+                    chain = []
+                    while y is not None and y.get('kind') in ('MemberExpr', 'ArraySubscriptExpr', 'CXXOperatorCallExpr', 'UnaryOperator'):
+                        if y.get('kind') == 'MemberExpr':
+                            chain.append(y)
+                        ks_ = kids(y)
+                        if y.get('kind') == 'CXXOperatorCallExpr':
+                            a_ = call_args(y)
+                            y = peel(a_[0]) if a_ else None
+                        else:
+                            y = peel(ks_[0]) if ks_ else None
+                    if chain and (y is None or y.get('kind') == 'CXXThisExpr'):
+                        out.add(chain[-1].get('name'))
+        for (kind, t, site) in self.G.edges.get(fkey, ()):
+            if kind in ('direct', 'virtual') and t in self.G.defs:
+                cu, cf = self.G.defs[t]
+                if cf.get('kind') == 'CXXMethodDecl' and '::'.join(t[0].split('::')[:-1]) == '::'.join(fkey[0].split('::')[:-1]):
+                    out |= self.this_writes(t, _seen)
+        self._tw[fkey] = out
+        return out
+
     def _const_member_call(self, e, c, u):
         from .expr import _member_fn_type, _is_const_method
         if e.get('kind') == 'CXXMemberCallExpr':
@@ -1540,7 +1622,7 @@ class AI(object):
 
     def call_function(self, fkey, args, st, u, site, this_loc=None):
         """Abstract inlining.  Returns [(value, state)] or None when not analysable."""
-        if fkey not in self.G.defs:
+        if fkey not in self.G.defs or not self.inline(fkey):
             return None
         cu, cf = self.G.defs[fkey]
         if body_of(cf) is None:
@@ -1620,6 +1702,7 @@ class AI(object):
                     v = StructV(tmp)
                 if v is None:
                     v = TOP
+                self.obs.returned(self, site, fkey, v, s2)
                 outs.append((v, s2))
         return self._merge_results(outs)
 
